@@ -457,6 +457,21 @@ const HAND_INPUTS: &[(&str, &str)] = &[
     ("hand-input:default-of-a-module-qualified-reference", "Mq1 DEFINITIONS AUTOMATIC TAGS ::= BEGIN\nTq1 ::= SEQUENCE { fq3 Mq3.Tq5 DEFAULT 3 }\nEND\nMq3 DEFINITIONS AUTOMATIC TAGS ::= BEGIN\nTq5 ::= INTEGER (0..10)\nEND\n"),
     ("hand-input:component-names-that-differ-by-case-or-hyphen", "Mq1 DEFINITIONS AUTOMATIC TAGS ::= BEGIN\nTq ::= SEQUENCE { fooBar NULL, foo-bar BOOLEAN }\nEND\n"),
     ("hand-input:component-named-like-an-escaped-keyword", "Mq1 DEFINITIONS AUTOMATIC TAGS ::= BEGIN\nTq ::= SEQUENCE { type INTEGER, r-type BOOLEAN }\nEND\n"),
+    // ---- ninth round: unchanged-tree observations of the agents (each a known finding unless it type-checks)
+    ("hand-input:default-on-a-hoisted-sequence-of-component", "Mq1 DEFINITIONS AUTOMATIC TAGS ::= BEGIN\nTq2 ::= SEQUENCE { f4 SEQUENCE OF INTEGER (0..5) DEFAULT { 1, 2 } }\nEND\n"),
+    ("hand-input:value-of-a-recursive-choice", "Mq1 DEFINITIONS AUTOMATIC TAGS ::= BEGIN\nCh ::= CHOICE { a INTEGER (0..7), n Ch }\nv Ch ::= n : a : 5\nEND\n"),
+    ("hand-input:value-through-an-alias-chain-in-an-importing-module", "Mq1 DEFINITIONS AUTOMATIC TAGS ::= BEGIN\nEXPORTS ALL;\nTq1 ::= INTEGER (0..255)\nTq1b ::= Tq1\nvq1 Tq1b ::= 5\nEND\nMq2 DEFINITIONS AUTOMATIC TAGS ::= BEGIN\nIMPORTS Tq1b, vq1 FROM Mq1;\nTq3 ::= SEQUENCE { f Tq1b DEFAULT 3 }\nvq2 Tq1b ::= 9\nEND\n"),
+    ("hand-input:type-named-like-a-rasn-prelude-item", "Mq1 DEFINITIONS AUTOMATIC TAGS ::= BEGIN\nOid ::= OBJECT IDENTIFIER\no1 OBJECT IDENTIFIER ::= { 1 2 3 }\nEND\n"),
+    ("hand-input:component-named-like-an-extension-group", "Mq1 DEFINITIONS AUTOMATIC TAGS ::= BEGIN\nTq ::= SEQUENCE { ext-group-b SEQUENCE { x INTEGER }, ..., [[ b BOOLEAN ]] }\nEND\n"),
+    ("hand-input:two-groups-of-components-of-only", "Mq1 DEFINITIONS AUTOMATIC TAGS ::= BEGIN\nBq ::= SEQUENCE { x INTEGER }\nDq ::= SEQUENCE { y INTEGER }\nTq ::= SEQUENCE { a INTEGER, ..., [[ COMPONENTS OF Bq ]], [[ COMPONENTS OF Dq ]] }\nEND\n"),
+    ("hand-input:type-names-that-mangle-alike", "Mq1 DEFINITIONS AUTOMATIC TAGS ::= BEGIN\nVersion-1-2 ::= INTEGER\nVersion-12 ::= BOOLEAN\nEND\n"),
+    ("hand-input:default-function-names-that-mangle-alike", "Mq1 DEFINITIONS AUTOMATIC TAGS ::= BEGIN\nAbC ::= SEQUENCE { d INTEGER DEFAULT 1 }\nAb ::= SEQUENCE { cD INTEGER DEFAULT 2 }\nEND\n"),
+    ("hand-input:value-and-type-that-mangle-alike", "Mq1 DEFINITIONS AUTOMATIC TAGS ::= BEGIN\na INTEGER ::= 1\nA ::= INTEGER\nEND\n"),
+    ("hand-input:value-of-a-fixed-size-bit-string-type", "Mq1 DEFINITIONS AUTOMATIC TAGS ::= BEGIN\nTq1 ::= BIT STRING (SIZE (8))\nvq1 Tq1 ::= '01000000'B\nEND\n"),
+    ("hand-input:components-of-an-imported-type", "Mq1 DEFINITIONS AUTOMATIC TAGS ::= BEGIN\nIMPORTS Cq, Chq FROM Mq2;\nDq ::= SEQUENCE { COMPONENTS OF Cq, c NULL }\nEq ::= x < Chq\nEND\nMq2 DEFINITIONS AUTOMATIC TAGS ::= BEGIN\nTq5 ::= BOOLEAN\nCq ::= SEQUENCE { a Tq5, b INTEGER }\nChq ::= CHOICE { x Tq5, y NULL }\nEND\n"),
+    ("hand-input:nested-one-component-sequence-value", "Mq1 DEFINITIONS AUTOMATIC TAGS ::= BEGIN\nTq1 ::= SEQUENCE { fq1 INTEGER }\nTq2 ::= SEQUENCE { fq2 Tq1 DEFAULT { fq1 7 } }\nEND\n"),
+    ("hand-input:named-number-through-a-value-reference-as-default", "Mq1 DEFINITIONS AUTOMATIC TAGS ::= BEGIN\nTq1 ::= INTEGER { nq1(1) }\nvq1 Tq1 ::= nq1\nTq2 ::= INTEGER\nTq3 ::= SEQUENCE { fq1 Tq2 DEFAULT vq1 }\nEND\n"),
+    ("hand-input:value-governed-by-a-module-qualified-type", "Mq1 DEFINITIONS AUTOMATIC TAGS ::= BEGIN\nTq1 ::= INTEGER (0..15)\nEND\nMq3 DEFINITIONS AUTOMATIC TAGS ::= BEGIN\nvq4 Mq1.Tq1 ::= 9\nAq3 ::= Mq1.Tq1\nEND\n"),
     // integer literals behind a chain of type references with a constrained hop (the literal takes the root type's spelling)
     ("hand-input:integer-literal-behind-a-constrained-reference-chain", "Mq1 DEFINITIONS AUTOMATIC TAGS ::= BEGIN\nBase ::= INTEGER\nSub ::= Base (0..10)\nHolder ::= SEQUENCE { f Sub DEFAULT 3 }\nEND\n"),
     ("hand-input:integer-literal-behind-a-constrained-reference-chain", "Mq1 DEFINITIONS AUTOMATIC TAGS ::= BEGIN\nBase ::= INTEGER\nSub ::= Base (0..10)\nAlias ::= Sub\nfour Alias ::= 4\nEND\n"),
